@@ -145,13 +145,62 @@ fn prefix_case(i: u64) -> Option<QCase> {
     Some(QCase { query: render_canonical(&e), expect: Expect::QuantityIn { si: rat(&si), dim: to.dim(), unit: mirror_json(&to.mirror()) }, nontrivial: true, classes })
 }
 
+/// Glued product words (`kWh`, `mAh`, `kNm`): a prefixed word directly followed by an unprefixed one, kept only
+/// when the letters have exactly one reading as documented prefix/unit names (so the expectation does not
+/// depend on how an ambiguity is resolved) and hold no lexer backtracking position (known finding, C05).
+fn glued_words() -> &'static Vec<(crate::ast::Word, crate::ast::Word)> {
+    static G: std::sync::OnceLock<Vec<(crate::ast::Word, crate::ast::Word)>> = std::sync::OnceLock::new();
+    G.get_or_init(|| {
+        let w = words();
+        let v = crate::units_ref::vocab();
+        let firsts: Vec<&crate::gen::WordInfo> = w.all.iter().filter(|x| x.safe && x.word.prefix != 0 && x.word.text.chars().count() <= 3 && !v.units[x.word.unit].offset).collect();
+        let seconds: Vec<&crate::gen::WordInfo> = w.all.iter().filter(|x| x.safe && x.word.prefix == 0 && x.word.text.chars().count() <= 2 && !v.units[x.word.unit].offset).collect();
+        let mut out = Vec::new();
+        for a in &firsts {
+            for b in &seconds {
+                // the same unit twice with two prefixes is refused by the tool's own rule (one prefix per unit)
+                if a.word.unit == b.word.unit {
+                    continue;
+                }
+                let glued = format!("{}{}", a.word.text, b.word.text);
+                if !crate::units_ref::typable_word(&glued) || super::c05::backtrack_prone(&glued) {
+                    continue;
+                }
+                let segs = super::c05::segmentations(&glued, 3);
+                if segs.len() != 1 || segs[0].len() != 2 {
+                    continue;
+                }
+                if segs[0][0].0 != v.units[a.word.unit].key() || segs[0][1].0 != v.units[b.word.unit].key() {
+                    continue;
+                }
+                out.push((a.word.clone(), b.word.clone()));
+            }
+        }
+        out
+    })
+}
+
+fn glued_case(i: u64) -> Option<QCase> {
+    let g = glued_words();
+    let (a, b) = g.get(i as usize)?;
+    let glued = format!("{}{}", a.text, b.text);
+    let product = USpell { factors: vec![(a.clone(), 1), (b.clone(), 1)], slash: false, star: true, noise: 0, starstar: false };
+    let dim = product.dim();
+    let si = product.scale(&observed().table)?;
+    let target = crate::units_ref::dim_spelling(&dim);
+    if target.is_empty() {
+        return None;
+    }
+    Some(QCase { query: format!("1 {} to {}", glued, target), expect: Expect::Quantity { si: rat(&si), dim }, nontrivial: true, classes: vec!["glued-product-word".to_string()] })
+}
+
 pub fn prefixed_count() -> u64 {
     let w = words();
     w.all.iter().filter(|x| x.safe && x.word.prefix != 0).count() as u64
 }
 
 pub fn run_check(ctx: &Ctx) {
-    ctx.set_rule("families (x, k, U1, U2, U3) of commensurable spellings: direct cast, there-and-back, via an intermediate unit, scaled input k*(x U1) to U2 and scaled output k*(x U1 to U2), each compared with x*s(U1)/s(U2) where s is the product of the observed single-unit factors and 10^(prefix*power); plus the exhaustive grid `1 <prefix><name>^n to <name>^n` = 10^(e*n) over every prefixed word the tool reads as declared and n in -3..3; non-trivial = source != target and (prefix on a powered unit, or >=2 units, or a derived unit in a denominator); distinct by the direct-cast query text");
+    ctx.set_rule("families (x, k, U1, U2, U3) of commensurable spellings: direct cast, there-and-back, via an intermediate unit, scaled input k*(x U1) to U2 and scaled output k*(x U1 to U2), each compared with x*s(U1)/s(U2) where s is the product of the observed single-unit factors and 10^(prefix*power); plus the exhaustive grid `1 <prefix><name>^n to <name>^n` = 10^(e*n) over every prefixed word the tool reads as declared and n in -3..3; every glued product word `<prefixed word><unprefixed word>` (kWh, mAh, kNm …) whose letters have exactly one documented reading: `1 <word> to <SI>` is refused or = 10^prefix * s(u1) * s(u2); non-trivial = source != target and (prefix on a powered unit, or >=2 units, or a derived unit in a denominator); distinct by the direct-cast query text");
     ctx.assume("single-unit factors are the tool's own (observed once with 86 casts); their correctness against the standards is C05's job");
     let corpus: Vec<(String, QCase)> = load_corpus("C03");
     let cases: Vec<QCase> = corpus.into_iter().map(|c| c.1).collect();
@@ -159,6 +208,20 @@ pub fn run_check(ctx: &Ctx) {
     let total = prefixed_count() * 6;
     ctx.run_enum("prefix-grid", total, prefix_case, |c| judge(shared_db(), c), |c| to_json(c));
     ctx.put("prefix_grid_exhaustive", json!(true));
+    let ng = glued_words().len() as u64;
+    ctx.put("glued_product_words", json!(ng));
+    // the tool may refuse a glued word (its lexer takes the longest name first and does not go back: `Ygrd` is
+    // `Ygr` + `d`); what it accepts must have the value of the one documented reading
+    ctx.run_enum(
+        "glued-product-words",
+        ng,
+        glued_case,
+        |c| match crate::tool::run(shared_db(), &c.query) {
+            Ok(rs) if rs.len() == 1 && matches!(rs[0], crate::tool::R::Err { .. }) => CaseReport::pass(&c.query, false, vec!["glued-product-word(refused)"]),
+            _ => judge(shared_db(), c),
+        },
+        |c| to_json(c),
+    );
     let n = ctx.tier.pick(40_000u64, 1_000_000);
     ctx.run_gen("families", family, n, check, family_json);
 }
